@@ -117,6 +117,12 @@ def overload_pair(r, name, first, unstable_p):
         else:
             f2["args"]["kwonly"].append(mk_arg(r, n))
             f2["args"]["kw_defaults"].append(gen_default(r) if r.random() < 0.5 else None)
+    if r.random() < 0.35:
+        # the earlier definition also has a (defaulted) parameter the later one lacks
+        cand = [n for n in extra[2:4]]
+        if cand:
+            f1["args"]["args"].append(mk_arg(r, cand[0]))
+            f1["args"]["defaults"].append(gen_default(r))
     if r.random() < 0.5 and not SAFE[0]:
         f1["decos"] = ["overload"]
     if r.random() < 0.2:
@@ -140,7 +146,8 @@ def gen_class(r, name, unstable_p=0.0, depth=0):
             pname = r.choice(["v", "w"])
             g = gen_fn(r, pname, "self", unstable_p, decos=["property"], nmax=1)
             s = gen_fn(r, pname, "self", unstable_p, decos=[pname + ".setter"], nmax=3)
-            if len(s["args"]["args"]) < 2:
+            used = {x["name"] for kk in ("posonly", "args", "kwonly") for x in s["args"][kk]} | {s["args"][kk]["name"] for kk in ("vararg", "kwarg") if s["args"][kk]}
+            if len(s["args"]["args"]) < 2 and "value" not in used:
                 s["args"]["args"].append(mk_arg(r, "value"))
             items.append([g, s])
         elif k < 0.3:
@@ -185,7 +192,7 @@ def _gen_module(r, role, unstable_p, mod_doc_p, safe):
             items.append([gen_fn(r, n, first, unstable_p)])
     if r.random() < 0.06:
         items.append([gen_fn(r, r.choice(FUNCS), None, unstable_p, is_async=True)])
-    if r.random() < 0.05:
+    if r.random() < 0.02:
         # a class and a function with one name
         items.append([gen_fn(r, r.choice(CLASSES), None, unstable_p)])
     for n in r.sample(NAMES, r.choice([0, 0, 1, 2])):
